@@ -260,6 +260,7 @@ func runC25(c *Ctx) []Obligation {
 		c.edgeMust(P, "hooks.every-vote-is-judged", "x/nodes/keeper.BeginBlocker", `^lt\(\(phi:rangeindex \+ 1\), builtin\.len\(\(\*github\.com/tendermint/tendermint/abci/types\.LastCommitInfo\)\.GetVotes\(`, true, `^`+kN+`handleValidatorSignature\(k, ctx, `, 1, "each vote of the last commit is passed to the downtime accounting"),
 	)
 	out = append(out, nodesBlockDuties(c, P)...)
+	out = append(out, tokenRemovalPersists(c, P)...)
 	return out
 }
 
@@ -353,6 +354,14 @@ func runC24(c *Ctx) []Obligation {
 	out = append(out, appsUnstakeLifecycle(c, P)...)
 	out = append(out, queueWriteBack(c, P)...)
 	out = append(out, sweepsVisitEverything(c, P, "(x/apps/keeper.Keeper).unstakeAllMatureApplications", "(x/nodes/keeper.Keeper).unstakeAllMatureValidators")...)
+	out = append(out, c.Rows([]Row{
+		{Prop: P, ID: "waiting.released-by-the-set-update", Fn: "(x/nodes/keeper.Keeper).UpdateTendermintValidators",
+			Assume:  []Lit{T(`^eq\(\(invoke types\.Ctx\.BlockHeight\(ctx\) % ` + kN + `BlocksPerSession\(k, ctx\)\), 0\)$`)},
+			Barrier: []string{`^` + kN + `ReleaseWaitingValidators\(k, ctx\)`}, Target: TargetAnyReturn(), Why: "at the last block of every session the validator-set update first releases the nodes waiting to begin unstaking"},
+		{Prop: P, ID: "waiting.released-only-at-the-boundary", Fn: "(x/nodes/keeper.Keeper).UpdateTendermintValidators",
+			Assume: []Lit{F(`^eq\(\(invoke types\.Ctx\.BlockHeight\(ctx\) % ` + kN + `BlocksPerSession\(k, ctx\)\), 0\)$`)},
+			Target: CallTo(`ReleaseWaitingValidators\(`), TargetMustExist: true, Why: "and at no other block"},
+	})...)
 	return out
 }
 
